@@ -769,3 +769,440 @@ def x32_decode(h):
     status_decode_contract(h, X32, "AcTimerControlDecoder", "AcTimerControlMessage", X33 + ":AcTimerStatusRequest", "acs",
                            "ac_timer_status", 5, 9, check_timer_record, "x32", 0x32, mk_dec=mk,
                            loop_fn=X33 + ":AcTimerStatusDecoder.decode", request_rejected=True)
+
+
+# ================================ 0xC0 wrapper ====================================================
+# 4.a: "First 8 bytes are the sub message type and data length details.  Byte1 sub message type,
+# Byte2 keep 0, Byte3-4 normal data length, Byte5-6 each repeat data length, Byte7-8 repeat data
+# count.  Data length = 8 + normal data length + repeat data length * repeat data count."
+#
+# The wrapper is verified *parametrically*: the sub-encoder / sub-decoder is a stub specified by a
+# contract (h.stub), for an arbitrary registered id and an arbitrary sub type.
+# The product count * length is kept linear for the solver: one factor comes from a complete case
+# split over constants, the other is symbolic over its whole 16-bit range, in both orders
+# ("lengths" covers the record sizes in use 0, 4, 8, 9, 10 and the extremes with an arbitrary count;
+# "counts" covers counts 0, 1, 2, 16 and 65535 with an arbitrary stride).
+_W_LENGTHS = [0, 1, 4, 8, 9, 10, 65535]
+_W_COUNTS = [0, 1, 2, 16, 65535]
+W_BOUND = "repeat length in {0,1,4,8,9,10,65535} x any count, or repeat count in {0,1,2,16,65535} x any length (product kept linear)"
+
+
+def gen_lengths(h):
+    nr = h.int("non_repeat_length", 0, 65535)
+    if h.choice("product_shape", ["constant length", "constant count"]) == "constant length":
+        rs = h.choice("repeat_length", _W_LENGTHS)
+        rc = h.int("repeat_count", 0, 65535)
+    else:
+        rc = h.choice("repeat_count", _W_COUNTS)
+        rs = h.int("repeat_length", 0, 65535)
+    return nr, rs, rc
+
+
+def exact_bytes(h, name, n):
+    """A symbolic buffer of exactly n bytes (n symbolic)."""
+    b = h.abytes(name, ln=n)
+    if not h.symbolic:
+        b = (bytes(b) + bytes(n))[:n]
+    return b
+
+
+def buf_eq(h, a, b):
+    """a == b for two buffers; two views of the same symbolic payload are compared by position
+    (equal offset and length, or both empty) - a sufficient condition, which is all an obligation needs."""
+    if h.symbolic:
+        from pyvc.values import ABytes
+        if isinstance(a, ABytes) and isinstance(b, ABytes) and a.same_base(b):
+            return Or(And(S.eq(a.off, b.off), S.eq(a.ln, b.ln)), And(S.eq(a.ln, 0), S.eq(b.ln, 0)))
+    return h.eq(a, b)
+
+
+class SubCodecContract:
+    """Contract of a 0xC0 sub-encoder and sub-decoder (ControlStatusSubEncoder / MessageDecoder
+    protocols of xC0_ctrl_status.py), with a log of the calls the wrapper makes."""
+
+    def __init__(self, h, nr, rs, rc, payload, result=None):
+        self.h, self.nr, self.rs, self.rc, self.payload, self.result = h, nr, rs, rc, payload, result
+        self.size_args, self.encode_args, self.decode_args = [], [], []
+        self.encoder = h.stub("sub-encoder", non_repeat_size=lambda m: self._size(m, nr), repeat_count=lambda m: self._size(m, rc),
+                              repeat_size=lambda m: self._size(m, rs), encode=self._encode)
+        self.decoder = h.stub("sub-decoder", decode=self._decode)
+
+    def _size(self, message, v):
+        self.size_args.append(message)
+        return v
+
+    def _encode(self, header, message):
+        self.encode_args.append((header, message))
+        return self.payload
+
+    def _decode(self, buffer, header):
+        self.decode_args.append((buffer, header))
+        return self.result
+
+    def header_ok(self, hd, sid):
+        """hd is a ControlStatusSubHeader carrying the sub id and the three numbers."""
+        h = self.h
+        if not h.isinstance(hd, C0 + ":ControlStatusSubHeader"):
+            return False
+        return And(h.eq(h.attr(hd, "sub_message_id"), sid), h.eq(h.attr(hd, "non_repeat_length"), self.nr),
+                   h.eq(h.attr(hd, "repeat_length"), self.rs), h.eq(h.attr(hd, "repeat_count"), self.rc))
+
+
+def sub_header_bytes_ok(h, hb, sid, nr, rs, rc):
+    h.oblige("sub-header byte1 = sub message type", hb[0] == sid)
+    h.oblige("sub-header byte2 keep 0", hb[1] == 0)
+    h.oblige("sub-header byte3-4 = normal data length (high byte first)", hb[2] * 256 + hb[3] == nr)
+    h.oblige("sub-header byte5-6 = each repeat data length", hb[4] * 256 + hb[5] == rs)
+    h.oblige("sub-header byte7-8 = repeat data count", hb[6] * 256 + hb[7] == rc)
+
+
+@oset("at5.xC0.encoder-parametric", ["C03", "C04"], [C0 + ":ControlStatusEncoder.size", C0 + ":ControlStatusEncoder.encode",
+                                                     C0 + ":ControlStatusEncoder._sub_message_encoder"], bounded=W_BOUND)
+def c0_encoder(h):
+    """ControlStatusEncoder over an arbitrary sub-encoder that satisfies the sub-encoder contract,
+    registered under an arbitrary id, for a sub-message with an arbitrary id."""
+    sid = h.int("sub_message_id", 0, 255)
+    reg = h.int("registered_id", 0, 255)
+    nr, rs, rc = gen_lengths(h)
+    total = nr + rc * rs
+    payload = exact_bytes(h, "sub_payload", total)
+    sc = SubCodecContract(h, nr, rs, rc, payload)
+    sub = h.new(COMMS + ":UnsupportedMessage", unsupported_id=sid, raw_data=b"")   # any message object with message_id == sid
+    msg = h.new(C0 + ":ControlStatusMessage", sub_message=sub)
+    enc = h.new(C0 + ":ControlStatusEncoder", {reg: sc.encoder})
+    s = h.method(enc, "size", msg)
+    e = h.method(enc, "encode", at5_header(h, 0xC0, 8 + total), msg)
+    if not s.ok or not e.ok:
+        h.oblige("size and encode agree on whether the sub-message is supported", And(not s.ok, not e.ok))
+        h.oblige("an unregistered sub-message is refused with NotImplementedError", And(s.raised("NotImplementedError"), e.raised("NotImplementedError")))
+        h.oblige("refused only if no encoder is registered for the sub-message id", sid != reg)
+        h.cover("unregistered sub-message")
+        return
+    h.oblige("encodes only with the encoder registered for the sub-message id", sid == reg)
+    h.oblige("size = 8 + normal data length + repeat data length * repeat data count", h.eq(s.value, 8 + total))
+    h.oblige("the sub-encoder is asked about the sub-message itself", And(*[h.same(m, sub) for m in sc.size_args]))
+    h.oblige("sub-encoder.encode is called once, with the sub-message and a sub-header carrying id and the three numbers",
+             And(len(sc.encode_args) == 1, h.same(sc.encode_args[0][1], sub) if sc.encode_args else False,
+                 sc.header_ok(sc.encode_args[0][0], sid) if sc.encode_args else False))
+    h.oblige("announced size == number of bytes produced", h.eq(h.length(e.value), s.value))
+    hb, rest = h.split_at(e.value, 8)
+    sub_header_bytes_ok(h, hb, sid, nr, rs, rc)
+    h.oblige("the sub data follows the 8 bytes unchanged", h.eq(rest, payload))
+    h.cover("registered sub-message encodes")
+
+
+@oset("at5.xC0.decoder-parametric", ["C05", "C17"], [C0 + ":ControlStatusDecoder.decode", C0 + ":ControlStatusDecoder._sub_message_decoder",
+                                                     C0 + ":UnsupportedControlStatusDecoder.decode"], bounded=W_BOUND)
+def c0_decoder(h):
+    """ControlStatusDecoder on an arbitrary buffer: dispatch on the sub type byte; a registered sub
+    type goes to its decoder with exactly the bytes behind the sub-header and the parsed sub-header;
+    an unregistered sub type is delivered as UnsupportedMessage with its sub data unchanged (C17)."""
+    buf = h.abytes("payload")
+    sid = h.int("sub_message_id", 0, 255)
+    reg = h.int("registered_id", 0, 255)
+    nr, rs, rc = gen_lengths(h)
+    total = nr + rc * rs
+    tok = h.new(COMMS + ":UnsupportedMessage", unsupported_id=sid, raw_data=b"token")       # "the decoded sub-message"
+    rem = h.abytes("sub_decoder_remaining")
+    sc = SubCodecContract(h, nr, rs, rc, None, result=h.new(COMMS + ":MessageDecodeResult", message=tok, remaining=rem))
+    dec = h.new(C0 + ":ControlStatusDecoder", {reg: sc.decoder})
+    short = h.branch(h.length(buf) < 8)
+    if not short:
+        hb, rest = h.split_at(buf, 8)
+        h.assume(And(hb[0] == sid, hb[2] * 256 + hb[3] == nr, hb[4] * 256 + hb[5] == rs, hb[6] * 256 + hb[7] == rc),
+                 "sid, nr, rs, rc name the sub-header fields of the buffer per the vendor layout (byte2 is arbitrary)")
+    r = h.method(dec, "decode", buf, at5_header(h, 0xC0, h.length(buf)))
+    h.oblige("returns or rejects", only_rejects(h, r))
+    if short:
+        h.oblige("a buffer shorter than the sub-header is rejected", not r.ok)
+        return
+    h.oblige("a buffer holding a sub-header is never rejected by the wrapper itself", r.ok)
+    if not r.ok:
+        return
+    m = h.attr(r.value, "message")
+    h.oblige("result is a ControlStatusMessage", h.isinstance(m, C0 + ":ControlStatusMessage"))
+    sub = h.attr(m, "sub_message")
+    if sc.decode_args:
+        h.oblige("dispatch: the registered decoder is used only for its own sub type byte", sid == reg)
+        b, hd = sc.decode_args[0]
+        h.oblige("the sub-decoder is called once, with the bytes behind the sub-header and the parsed sub-header",
+                 And(len(sc.decode_args) == 1, buf_eq(h, b, rest), sc.header_ok(hd, sid)))
+        h.oblige("the sub-decoder's message and remaining bytes are passed through",
+                 And(h.same(sub, tok), h.same(h.attr(r.value, "remaining"), rem)))
+        h.cover("registered sub type")
+    else:
+        h.oblige("dispatch: the fallback is used only for an unregistered sub type byte", sid != reg)
+        ok = h.isinstance(sub, COMMS + ":UnsupportedMessage")
+        h.oblige("unregistered sub type -> UnsupportedMessage", ok)
+        if ok:
+            h.oblige("unsupported_id = sub type byte", h.eq(h.attr(sub, "unsupported_id"), sid))
+            h.oblige("raw_data = the first nr + rc * rs bytes behind the sub-header, unchanged",
+                     buf_eq(h, h.attr(sub, "raw_data"), h.slice(rest, 0, total)))
+            h.oblige("remaining = what follows the sub data", buf_eq(h, h.attr(r.value, "remaining"), h.slice(rest, total)))
+        h.cover("unregistered sub type")
+
+
+@oset("at5.xC0.unsupported-decoder", ["C17"], [C0 + ":UnsupportedControlStatusDecoder.decode"], bounded=W_BOUND)
+def c0_unsupported(h):
+    """UnsupportedControlStatusDecoder on its own: never raises, carries nr + rc * rs bytes unchanged."""
+    buf = h.abytes("payload")
+    sid = h.int("sub_message_id", 0, 255)
+    nr, rs, rc = gen_lengths(h)
+    total = nr + rc * rs
+    r = h.method(h.new(C0 + ":UnsupportedControlStatusDecoder"), "decode", buf, at5_c0_subheader(h, sid, nr, rs, rc))
+    h.oblige("never raises", r.ok)
+    if not r.ok:
+        return
+    m = h.attr(r.value, "message")
+    h.oblige("UnsupportedMessage with the sub type as id", And(h.isinstance(m, COMMS + ":UnsupportedMessage"), h.eq(h.attr(m, "unsupported_id"), sid)))
+    mid = h.prop(m, "message_id")
+    h.oblige("message_id reports the sub type", And(mid.ok, h.eq(mid.value, sid) if mid.ok else False))
+    h.oblige("raw_data = payload[:nr + rc * rs]", buf_eq(h, h.attr(m, "raw_data"), h.slice(buf, 0, total)))
+    h.oblige("remaining = payload[nr + rc * rs:]", buf_eq(h, h.attr(r.value, "remaining"), h.slice(buf, total)))
+
+
+@oset("at5.xC0.sub-header", ["C03"], [C0 + ":ControlStatusSubHeader.message_length", C0 + ":ControlStatusSubHeader.message_id"], bounded=W_BOUND)
+def c0_sub_header(h):
+    sid = h.int("sub_message_id", 0, 255)
+    nr, rs, rc = gen_lengths(h)
+    hd = at5_c0_subheader(h, sid, nr, rs, rc)
+    ml = h.prop(hd, "message_length")
+    mi = h.prop(hd, "message_id")
+    h.oblige("message_length = normal data length + repeat data length * repeat data count (= data length - 8)",
+             And(ml.ok, h.eq(ml.value, nr + rc * rs) if ml.ok else False))
+    h.oblige("message_id = sub message type", And(mi.ok, h.eq(mi.value, sid) if mi.ok else False))
+
+
+@oset("at5.xC0.roundtrip-parametric", ["C03"], [C0 + ":ControlStatusEncoder.size", C0 + ":ControlStatusEncoder.encode", C0 + ":ControlStatusDecoder.decode"],
+      bounded=W_BOUND)
+def c0_roundtrip(h):
+    """decode(encode(m)) through the wrapper for any sub-codec pair satisfying the contract: the
+    sub-decoder receives exactly the sub-encoder's bytes and an equal sub-header; what it returns is
+    what the wrapper returns.  (With the per-codec round-trip sets this composes to C03 for 0xC0.)"""
+    sid = h.int("sub_message_id", 0, 255)
+    nr, rs, rc = gen_lengths(h)
+    total = nr + rc * rs
+    payload = exact_bytes(h, "sub_payload", total)
+    sub = h.new(COMMS + ":UnsupportedMessage", unsupported_id=sid, raw_data=b"")
+    sc = SubCodecContract(h, nr, rs, rc, payload, result=h.new(COMMS + ":MessageDecodeResult", message=sub, remaining=b""))
+    msg = h.new(C0 + ":ControlStatusMessage", sub_message=sub)
+    enc = h.new(C0 + ":ControlStatusEncoder", {sid: sc.encoder})
+    dec = h.new(C0 + ":ControlStatusDecoder", {sid: sc.decoder})
+    s = h.method(enc, "size", msg)
+    h.oblige("size does not raise", s.ok)
+    if not s.ok:
+        return
+    hdr = at5_header(h, 0xC0, s.value)
+    e = h.method(enc, "encode", hdr, msg)
+    h.oblige("encode does not raise", e.ok)
+    if not e.ok:
+        return
+    d = h.method(dec, "decode", e.value, hdr)
+    h.oblige("decode accepts the encoder's output", d.ok)
+    if not d.ok:
+        return
+    ok = len(sc.decode_args) == 1 and len(sc.encode_args) == 1
+    h.oblige("one sub-encode, one sub-decode", ok)
+    if not ok:
+        return
+    h.oblige("the sub-decoder receives exactly the sub-encoder's bytes", h.eq(sc.decode_args[0][0], payload))
+    h.oblige("the sub-decoder receives a sub-header equal to the one the sub-encoder was given", h.eq(sc.decode_args[0][1], sc.encode_args[0][0]))
+    h.oblige("decoded wrapper message equals the original", h.eq(h.attr(d.value, "message"), msg))
+    h.oblige("nothing left over", h.eq(h.length(h.attr(d.value, "remaining")), 0))
+    ac = h.method(d.value, "assert_complete")
+    h.oblige("assert_complete passes", ac.ok)
+    h.cover("wrapper roundtrip completes")
+
+
+# ================================ header codec (hdr.py) ==========================================
+# Vendor section 3: Header 0x55 0x55 0x55 0xAA (4) | Address (2) | Message id (1) | Message type (1) |
+# Data length (2, high byte first) | Data | CRC16 over everything after the header.
+# (The code's field names: packet_id = the document's "message id"; message_id = "message type".)
+# NOT in the vendor document: the code frames this in an outer header
+#   0x55 0x55 0x55 0xAB | 2 pad bytes | data length | data length again,  data length = 10 + message length + 2
+# Oracle for the outer header: repo-derived (comment block above _STRUCT in at5/comms/hdr.py, "reverse engineered").
+HDR_ORACLE = ["outer header 55 55 55 AB, two pad bytes, data length twice (= 10 + message length + 2): oracle is repo-derived "
+              "(at5/comms/hdr.py comments); the vendor document v1.2 describes the inner header only"]
+OUTER_PREFIX = [0x55, 0x55, 0x55, 0xAB]
+INNER_PREFIX = [0x55, 0x55, 0x55, 0xAA]
+MAX_MESSAGE_LENGTH = 65535 - 12
+
+
+def header_fields(h, max_len=MAX_MESSAGE_LENGTH):
+    return dict(to_address=h.int("to_address", 0, 255), from_address=h.int("from_address", 0, 255),
+                packet_id=h.int("packet_id", 0, 255), message_id=h.int("message_id", 0, 255),
+                message_length=h.int("message_length", 0, max_len))
+
+
+def header_wire_meaning(h, hb, f):
+    h.oblige("outer header: 55 55 55 AB, two zero pad bytes", And(*[hb[i] == OUTER_PREFIX[i] for i in range(4)], hb[4] == 0, hb[5] == 0))
+    dl = 10 + f["message_length"] + 2
+    h.oblige("outer data length = 10 + message length + 2, written twice", And(hb[6] * 256 + hb[7] == dl, hb[8] * 256 + hb[9] == dl))
+    h.oblige("vendor header: 0x55 0x55 0x55 0xAA", And(*[hb[10 + i] == INNER_PREFIX[i] for i in range(4)]))
+    h.oblige("vendor address: to, from", And(hb[14] == f["to_address"], hb[15] == f["from_address"]))
+    h.oblige("vendor message id byte = packet id", hb[16] == f["packet_id"])
+    h.oblige("vendor message type byte = message id", hb[17] == f["message_id"])
+    h.oblige("vendor data length, high byte first = message length", hb[18] * 256 + hb[19] == f["message_length"])
+
+
+@oset("at5.hdr.encode", ["C03", "C04"], [HDR + ":HeaderEncoder.encode"], assumptions=HDR_ORACLE)
+def hdr_encode(h):
+    """Precondition for a frame: addresses / ids 0..255 and message length 0..65523 (12 + length must
+    fit the 16-bit outer length).  Inside it encode never raises; beyond it no frame is produced."""
+    f = header_fields(h, max_len=70000)
+    r = h.method(h.new(HDR + ":HeaderEncoder"), "encode", h.new(HDR + ":At5Header", **f))
+    if not r.ok:
+        h.oblige("inside the precondition encode never raises", f["message_length"] > MAX_MESSAGE_LENGTH)
+        h.oblige("an over-long message is refused with struct.error (no frame with a wrapped length)", r.raised("struct.error"))
+        return
+    h.oblige("a frame is produced only inside the precondition", f["message_length"] <= MAX_MESSAGE_LENGTH)
+    hb = h.items(h.attr(r.value, "header_bytes"))
+    h.oblige("20 header bytes", len(hb) == 20)
+    if len(hb) != 20:
+        return
+    header_wire_meaning(h, hb, f)
+    h.oblige("checksum span = address .. data length of the vendor header (bytes 14..19)",
+             h.eq(h.attr(r.value, "checksum_data"), h.mkbytes(hb[14:20])))
+    h.cover("header encodes")
+
+
+@oset("at5.hdr.decode", ["C05", "C17"], [HDR + ":HeaderDecoder.decode", HDR + ":HeaderDecoder.header_length"], assumptions=HDR_ORACLE)
+def hdr_decode(h):
+    """Arbitrary buffer: every field is read from its position; the four malformations are rejected
+    with DecodeError, a short buffer with struct.error; nothing else is rejected."""
+    buf = h.abytes("buffer")
+    dec = h.new(HDR + ":HeaderDecoder")
+    hl = h.prop(dec, "header_length")
+    h.oblige("header_length == 20", And(hl.ok, h.eq(hl.value, 20) if hl.ok else False))
+    short = h.branch(h.length(buf) < 20)
+    r = h.method(dec, "decode", buf)
+    h.oblige("returns or rejects", only_rejects(h, r))
+    if short:
+        h.oblige("a buffer shorter than the header is rejected", not r.ok)
+        return
+    hb, rest = h.split_at(buf, 20)
+    mlen = hb[18] * 256 + hb[19]
+    dl1, dl2 = hb[6] * 256 + hb[7], hb[8] * 256 + hb[9]
+    outer_ok = And(*[hb[i] == OUTER_PREFIX[i] for i in range(4)])
+    inner_ok = And(*[hb[10 + i] == INNER_PREFIX[i] for i in range(4)])
+    if not r.ok:
+        h.oblige("rejections use DecodeError", r.raised("DecodeError"))
+        h.oblige("rejected only for: wrong outer prefix, data lengths differ, wrong vendor header, data length != 12 + message length",
+                 Or(Not(outer_ok), dl1 != dl2, Not(inner_ok), dl1 != 12 + mlen))
+        h.cover("header rejected")
+        return
+    h.oblige("accepted => outer prefix 55 55 55 AB", outer_ok)
+    h.oblige("accepted => the two outer data lengths agree", dl1 == dl2)
+    h.oblige("accepted => vendor header 55 55 55 AA", inner_ok)
+    h.oblige("accepted => outer data length == 10 + message length + 2", dl1 == 12 + mlen)
+    hd = h.attr(r.value, "header")
+    h.oblige("to / from address = bytes 14, 15", And(h.eq(h.attr(hd, "to_address"), hb[14]), h.eq(h.attr(hd, "from_address"), hb[15])))
+    h.oblige("packet id = byte 16 (vendor message id)", h.eq(h.attr(hd, "packet_id"), hb[16]))
+    h.oblige("message id = byte 17 (vendor message type)", h.eq(h.attr(hd, "message_id"), hb[17]))
+    h.oblige("message length = bytes 18-19, high byte first", h.eq(h.attr(hd, "message_length"), mlen))
+    h.oblige("remaining = what follows the 20 bytes", buf_eq(h, h.attr(r.value, "remaining"), rest))
+    h.oblige("checksum span = bytes 14..19", h.eq(h.attr(r.value, "checksum_data"), h.mkbytes(hb[14:20])))
+    h.cover("header accepted")
+
+
+@oset("at5.hdr.roundtrip", ["C03"], [HDR + ":HeaderEncoder.encode", HDR + ":HeaderDecoder.decode"], assumptions=HDR_ORACLE)
+def hdr_roundtrip(h):
+    f = header_fields(h)
+    hdr = h.new(HDR + ":At5Header", **f)
+    e = h.method(h.new(HDR + ":HeaderEncoder"), "encode", hdr)
+    h.oblige("encode does not raise", e.ok)
+    if not e.ok:
+        return
+    d = h.method(h.new(HDR + ":HeaderDecoder"), "decode", h.attr(e.value, "header_bytes"))
+    h.oblige("decode accepts the encoder's output", d.ok)
+    if not d.ok:
+        return
+    h.oblige("decoded header equals the original", h.eq(h.attr(d.value, "header"), hdr))
+    h.oblige("nothing left over", h.eq(h.length(h.attr(d.value, "remaining")), 0))
+    h.oblige("same checksum span on both sides", h.eq(h.attr(d.value, "checksum_data"), h.attr(e.value, "checksum_data")))
+    ac = h.method(d.value, "assert_complete")
+    h.oblige("assert_complete passes", ac.ok)
+    h.cover("header roundtrip completes")
+
+
+# ================================ registry ========================================================
+
+@oset("at5.registry.header-factory", ["C04", "C03"], [REG + ":HeaderFactory.create_from_message", REG + ":HeaderFactory._packet_id"])
+def reg_header_factory(h):
+    """Section 3.b: address 0x80 0xB0, or 0x90 0xB0 for an extended message (type 0x1F), when sending
+    to AirTouch.  Arbitrary factory state (counter 0..255), arbitrary message id and length."""
+    ctr = h.int("next_packet_id", 0, 255)
+    fac = h.raw(REG + ":HeaderFactory", _next_packet_id=ctr)
+    mid = h.int("message_id", 0, 255)
+    mlen = h.int("message_length", 0, 65535)
+    msg = h.new(COMMS + ":UnsupportedMessage", unsupported_id=mid, raw_data=b"")     # any message whose message_id is mid
+    r = h.method(fac, "create_from_message", msg, mlen)
+    h.oblige("never raises", r.ok)
+    if not r.ok:
+        return
+    hd = r.value
+    h.oblige("result is an At5Header", h.isinstance(hd, HDR + ":At5Header"))
+    h.oblige("to address 0x90 iff extended message (0x1F), else 0x80", h.eq(h.attr(hd, "to_address"), ite(mid == 0x1F, 0x90, 0x80)))
+    h.oblige("from address 0xB0", h.eq(h.attr(hd, "from_address"), 0xB0))
+    h.oblige("packet id = the counter before the call", h.eq(h.attr(hd, "packet_id"), ctr))
+    h.oblige("message id and length are the arguments", And(h.eq(h.attr(hd, "message_id"), mid), h.eq(h.attr(hd, "message_length"), mlen)))
+    h.oblige("counter' = (counter + 1) mod 256", h.eq(h.attr(fac, "_next_packet_id"), ite(ctr == 255, 0, ctr + 1)))
+
+
+# id -> (module, encoder class, decoder class, message classes).  Ids of 0x20..0x23 and the extended
+# ids are the vendor's (4.a.i-iv, 4.b.i-iv); 0x32 / 0x33 / 0xFF49 are repo-derived (module docstrings).
+C0_TABLE = {
+    0x20: (X20, "ZoneControlEncoder", "ZoneControlDecoder", ["ZoneControlMessage"]),
+    0x21: (X21, "ZoneStatusEncoder", "ZoneStatusDecoder", ["ZoneStatusMessage", "ZoneStatusRequest"]),
+    0x22: (X22, "AcControlEncoder", "AcControlDecoder", ["AcControlMessage"]),
+    0x23: (X23, "AcStatusEncoder", "AcStatusDecoder", ["AcStatusMessage", "AcStatusRequest"]),
+    0x32: (X32, "AcTimerControlEncoder", "AcTimerControlDecoder", ["AcTimerControlMessage"]),
+    0x33: (X33, "AcTimerStatusEncoder", "AcTimerStatusDecoder", ["AcTimerStatusMessage", "AcTimerStatusRequest"]),
+}
+EXT_TABLE = {
+    0xFF10: (AT5 + "x1FFF10_err_info", "AcErrorInformationEncoder", "AcErrorInformationDecoder", ["AcErrorInformationMessage", "AcErrorInformationRequest"]),
+    0xFF11: (AT5 + "x1FFF11_ac_ability", "AcAbilityEncoder", "AcAbilityDecoder", ["AcAbilityMessage", "AcAbilityRequest"]),
+    0xFF13: (AT5 + "x1FFF13_zone_names", "ZoneNamesEncoder", "ZoneNamesDecoder", ["ZoneNamesMessage", "ZoneNamesRequest"]),
+    0xFF30: (AT5 + "x1FFF30_console_ver", "ConsoleVersionEncoder", "ConsoleVersionDecoder", ["ConsoleVersionMessage", "ConsoleVersionRequest"]),
+    0xFF49: (AT5 + "x1FFF49_quick_timer", "QuickTimerEncoder", "QuickTimerDecoder", ["QuickTimerMessage"]),
+}
+TOP_TABLE = {
+    0x1F: (AT5 + "x1F_ext", "ExtendedMessageEncoder", "ExtendedMessageDecoder", ["ExtendedMessage"]),
+    0xC0: (C0, "ControlStatusEncoder", "ControlStatusDecoder", ["ControlStatusMessage"]),
+}
+
+
+def check_table(h, what, enc_map, dec_map, table):
+    ekeys, dkeys = sorted(h.elems(enc_map)), sorted(h.elems(dec_map))
+    h.oblige(f"{what}: exactly the ids of the table have an encoder", ekeys == sorted(table))
+    h.oblige(f"{what}: exactly the ids of the table have a decoder", dkeys == sorted(table))
+    for key, (mod, enc_cls, dec_cls, msg_classes) in table.items():
+        tag = f"{what} 0x{key:02X}: "
+        h.oblige(tag + "the module's MESSAGE_ID is the id", h.eq(h.get(mod + ":MESSAGE_ID"), key))
+        e = h.method(enc_map, "get", key)
+        d = h.method(dec_map, "get", key)
+        h.oblige(tag + "registered encoder is the module's encoder", bool(e.ok and e.value is not None and h.isinstance(e.value, mod + ":" + enc_cls)))
+        h.oblige(tag + "registered decoder is the module's decoder", bool(d.ok and d.value is not None and h.isinstance(d.value, mod + ":" + dec_cls)))
+        for mc in msg_classes:
+            mid = h.prop(h.raw(mod + ":" + mc), "message_id")
+            h.oblige(tag + f"{mc}.message_id is the id", bool(mid.ok and h.eq(mid.value, key) is True))
+
+
+@oset("at5.registry.registration-table", ["C03", "C17"], [REG + ":INSTANCE"], kind="frame")
+def reg_table(h):
+    """The concrete registration state built at import: every id maps to the encoder / decoder of the
+    module that owns the id, and that module's message classes announce the same id (a swapped
+    registration, or a message class with a copy-pasted id, shows up here)."""
+    inst = h.get(REG + ":INSTANCE")
+    check_table(h, "message type", h.attr(inst, "_encoder_map"), h.attr(inst, "_decoder_map"), TOP_TABLE)
+    for key, table, what in ((0xC0, C0_TABLE, "0xC0 sub type"), (0x1F, EXT_TABLE, "0x1F sub type")):
+        enc = h.method(inst, "get_encoder", key)
+        dec = h.method(inst, "get_decoder", key)
+        ok = enc.ok and dec.ok
+        h.oblige(f"{what}: wrapper codec registered", ok)
+        if ok:
+            check_table(h, what, h.attr(enc.value, "_encoder_map"), h.attr(dec.value, "_decoder_map"), table)
+    for part, cls in (("header_factory", REG + ":HeaderFactory"), ("header_encoder", HDR + ":HeaderEncoder"), ("header_decoder", HDR + ":HeaderDecoder"),
+                      ("checksum_calculator", "pyairtouch.comms.crc16:Crc16Modbus")):
+        h.oblige(f"registry.{part} is the AT5 {cls.split(':')[1]}", h.isinstance(h.attr(inst, part), cls))
+    h.cover("registration table")
